@@ -12,7 +12,10 @@
 //       to the well-typed ones by the real TypeAuditor, evaluated both ways under three
 //       interpretations of the base set (X1 = {1,2,3}, {}, {5}).
 //
-// Build: see /verif/refs/README.md.    Run: t_ref_eval [-v] [-cap N] [-only harvest|gen|sets]
+// Build: see /verif/refs/README.md.    Run: t_ref_eval [-v] [-cap N] [-only harvest|gen|sets] [-skip2] [-fixed]
+//   -fixed: the binary is linked against a patched COPY of rslang (defects 1, 2 of the KNOWN list fixed),
+//           so the skips / expectations for those defects are switched off and any remaining
+//           disagreement is a different one.
 // Exit code 0 iff there is no disagreement (known real-interpreter defects are listed, see KNOWN).
 #include "ref_eval.h"
 
@@ -172,6 +175,7 @@ struct Stats {
 };
 
 static bool g_verbose = false;
+static bool g_fixedLibrary = false;  // -fixed: linked against a copy of rslang with the known defects patched
 static double Now() { return static_cast<double>(clock()) / CLOCKS_PER_SEC; }
 static std::vector<std::string> g_disagreements;
 static std::map<std::string, long> g_knownHits;
@@ -192,12 +196,20 @@ static bool ClassMatches(uint32_t eid, int fc) {
   }
 }
 
+static bool MaskMatches(uint32_t eid, uint32_t failMask) {
+  for (int fc = ref::F_LIMIT; fc <= ref::F_MALFORMED; ++fc) {
+    if ((failMask >> fc & 1U) != 0 && ClassMatches(eid, fc)) return true;
+  }
+  return false;
+}
+
 //! KNOWN defects of the real interpreter (reported, not oracle bugs): returns a tag or "".
 static std::string KnownDefect(const std::string& /*expr*/, const RealResult& /*real*/, const ref::EvalResult& /*oracle*/) {
   return {};
 }
 
 static constexpr uint32_t SET_LIMIT = 5000;
+static constexpr uint32_t STEP_LIMIT = 250000;  // > the real MAX_ITERATIONS (100000)
 using meta_ast = ccl::meta::UniqueCPPtr<SyntaxTree>;
 
 //! Names that ASTInterpreter::NameCollector attaches to a node (nodeVars), by name instead of slot id.
@@ -266,6 +278,18 @@ static RealResult Compare(const Prepared& prep, const Env& env, const ref::DataE
   real.type = prep.type;
   const SyntaxTree& ast = *prep.ast;
 
+  // --- oracle: the un-normalised tree
+  const ref::EvalResult oracle = ref::Eval(ast, refEnv, SET_LIMIT, STEP_LIMIT);
+  if (oracleOut != nullptr) *oracleOut = oracle;
+  if ((oracle.failMask >> ref::F_OVERFLOW & 1U) != 0) {
+    // KNOWN real defect (would abort this process under UBSan): ASTInterpreter::ViArithmetic computes
+    // op1+op2 / op1-op2 / op1*op2 in int32 without overflow check (signed overflow = UB).
+    ++stats.total;
+    ++stats.known;
+    if (++g_knownHits["int32 overflow in ViArithmetic (UB)"] <= 5) printf("  KNOWN[arithmetic overflow] %s\n", expr.c_str());
+    return real;
+  }
+
   // --- real: normalise a copy, evaluate
   ErrorLogger log{};
   {
@@ -273,9 +297,9 @@ static RealResult Compare(const Prepared& prep, const Env& env, const ref::DataE
     normal.Normalize(env.Asts());
     bool crash = false;
     (void)CollectedNames(normal.Root(), crash);
-    if (crash) {
+    if (crash && !g_fixedLibrary) {
       // KNOWN real defect (would abort this process): see CollectedNames. Oracle still has to survive it.
-      (void)ref::Eval(ast, refEnv, SET_LIMIT);
+      
       ++stats.total;
       ++stats.known;
       if (++g_knownHits["imperative-result-without-names (null deref in NameCollector::ViImperative)"] <= 5) {
@@ -289,10 +313,6 @@ static RealResult Compare(const Prepared& prep, const Env& env, const ref::DataE
   for (const auto& e : log.All()) {
     if (e.IsCritical()) { real.eid = e.eid; break; }
   }
-
-  // --- oracle: the un-normalised tree
-  const ref::EvalResult oracle = ref::Eval(ast, refEnv, SET_LIMIT);
-  if (oracleOut != nullptr) *oracleOut = oracle;
 
   ++stats.total;
   std::string verdict{};
@@ -323,7 +343,7 @@ static RealResult Compare(const Prepared& prep, const Env& env, const ref::DataE
       }
     } else if (IsResourceError(real.eid)) {
       ++stats.resourceFail;
-    } else if (oracle.sawFailure && ClassMatches(real.eid, oracle.firstFailClass)) {
+    } else if (oracle.sawFailure && MaskMatches(real.eid, oracle.failMask)) {
       ++stats.justifiedFail;
     } else {
       verdict = "real fails, oracle gives a value";
@@ -352,7 +372,10 @@ static RealResult Compare(const Prepared& prep, const Env& env, const ref::DataE
       if (++g_knownHits[tag] <= 5) printf("  KNOWN[%s] %s\n", tag.c_str(), line.c_str());
     } else {
       ++stats.disagree;
-      if (g_disagreements.size() < 400) g_disagreements.push_back(line);
+      if (g_disagreements.size() < 400) {
+        g_disagreements.push_back(line);
+        printf("  DISAGREE %s\n", line.c_str());
+      }
     }
   } else if (g_verbose) {
     printf("  ok  %s\n", expr.c_str());
@@ -431,7 +454,7 @@ static void TestSetAlgebra() {
         ExpectSame(ref::Diff(ra, rb), a.B().Diff(b.B()), "Diff");
         ExpectSame(ref::SymDiff(ra, rb), a.B().SymDiff(b.B()), "SymDiff");
         ExpectSame(ref::Product({ ra, rb }, 5000).value(), Factory::Decartian({ a, b }), "Product");
-        if (lazy.contains(&a) && !a.B().IsEmpty() && !b.B().Contains(*a.B().begin())) {
+        if (!g_fixedLibrary && lazy.contains(&a) && !a.B().IsEmpty() && !b.B().Contains(*a.B().begin())) {
           // KNOWN real defect: SDPowerSet/SDDecartian::Iterator::operator== is asymmetric (end()==begin() holds),
           // so std::all_of in SDSet::IsSubsetOrEq answers true when the FIRST element is not in rhs.
           ++g_setKnown;
@@ -1094,28 +1117,32 @@ static void RunAll() {
     for (const char h : holes) {
       lists.push_back(h == '#' ? &domains : (h == '?' || h == '!') ? &openLogic : h == '@' ? &openSet : h == '%' ? &smallLogic : &smallSet);
     }
-    // Typing of each body depends only on the TYPE of the domain (hole 0) and on that body, so the
-    // bodies are filtered one hole at a time against a neutral filling of the other holes
-    // (logic: 1=1; set-expression: the bound variable a, then b), per domain type.
+    // Typing of each body depends only on the TYPE of the domain (every '#' hole takes the same
+    // domain) and on that body, so bodies are filtered one hole at a time against a neutral filling
+    // of the other body holes (logic: 1=1; set-expression: the bound variable a, then b), per domain type.
     const Ex neutralLogic{ "1=1", PRED, "LOGIC" }, neutralA{ "a", ATOM, "" }, neutralB{ "b", ATOM, "" };
     std::vector<const Ex*> neutral(n, nullptr);
+    std::vector<size_t> bodyHoles{};
     {
       int setHoles = 0;
-      for (size_t h = 1; h < n; ++h) {
+      for (size_t h = 0; h < n; ++h) {
+        if (holes[h] == '#') continue;
+        bodyHoles.push_back(h);
         const bool logic = holes[h] == '?' || holes[h] == '!' || holes[h] == '%';
         neutral[h] = logic ? &neutralLogic : (setHoles++ == 0 ? &neutralA : &neutralB);
       }
     }
     std::map<std::string, std::vector<std::vector<const Ex*>>> validByType{};
     for (const auto& domain : domains) {
+      std::vector<const Ex*> base = neutral;
+      for (size_t h = 0; h < n; ++h) if (holes[h] == '#') base[h] = &domain;
       const auto typeKey = TypeKey(domain);
       if (!validByType.contains(typeKey)) {
         auto& valid = validByType[typeKey];
         valid.resize(n);
-        for (size_t h = 1; h < n; ++h) {
+        for (const size_t h : bodyHoles) {
           for (const auto& body : *lists[h]) {
-            std::vector<const Ex*> args = neutral;
-            args[0] = &domain;
+            std::vector<const Ex*> args = base;
             args[h] = &body;
             std::string type{};
             if (Run(Fill(t, args), type)) valid[h].push_back(&body);
@@ -1124,11 +1151,11 @@ static void RunAll() {
       }
       const auto& valid = validByType.at(typeKey);
       uint64_t total = 1;
-      for (size_t h = 1; h < n; ++h) total *= valid[h].size();
+      for (const size_t h : bodyHoles) total *= valid[h].size();
       for (uint64_t lin = 0; lin < total; ++lin) {
-        std::vector<const Ex*> args(n, &domain);
+        std::vector<const Ex*> args = base;
         uint64_t rest = lin;
-        for (size_t h = 1; h < n; ++h) {
+        for (const size_t h : bodyHoles) {
           args[h] = valid[h][rest % valid[h].size()];
           rest /= valid[h].size();
         }
@@ -1173,6 +1200,7 @@ int main(int argc, char** argv) {
     else if (!strcmp(argv[i], "-cap") && i + 1 < argc) gen::g_cap = atol(argv[++i]);
     else if (!strcmp(argv[i], "-only") && i + 1 < argc) only = argv[++i];
     else if (!strcmp(argv[i], "-skip2")) gen::g_skipDepth2 = true;
+    else if (!strcmp(argv[i], "-fixed")) g_fixedLibrary = true;
   }
   setvbuf(stdout, nullptr, _IOLBF, 0);
   if (only.empty() || only == "sets") TestSetAlgebra();
